@@ -885,21 +885,36 @@ class Gen:
                     self.epoch_views.discard(h)
 
     def end_epoch_drop_views(self):
-        """v1 scope: views never survive an epoch boundary (DESIGN C04 'Blind')."""
+        """Views do not survive an epoch boundary - except (profile switches) `stale` ones, which are kept, observed and
+        null_grad-ed but never used again, and `reused` ones, which the program goes on using."""
         for h in sorted(self.stale):          # stale views of the previous epoch go now
             if h in self.np.H:
                 self.prog.append({"k": "drop", "h": h})
                 del self.np.H[h]
         self.stale.clear()
+        reused = None
         for h in sorted(self.epoch_views):
             if h in self.np.H:
                 if self.rng.random() < self.p.get("p_keep_stale", 0.0):
+                    if reused is None and self.rng.random() < self.p.get("p_reuse_stale", 0.0):
+                        # ONE disconnected view of the epoch that ended goes on being used (as an operand, as the parent
+                        # of new views): its base lingers until its next use, then it is a base of its own.  Every other
+                        # tensor over the same memory is retired (observed, never used again): a detached view and its
+                        # former family are independent leaves over one memory, for which "the derivative with respect
+                        # to the tensor's value" has no reading at the reference level.
+                        reused = h
+                        continue
                     self.stale.add(h)
                     if self.rng.random() < 0.5:
                         self.prog.append({"k": "nullgrad", "h": h})
                     continue
                 self.prog.append({"k": "drop", "h": h})
                 del self.np.H[h]
+        if reused is not None:
+            R_ = self.np.H[reused]
+            for q in list(self.np.H):
+                if q != reused and q not in self.stale and np.shares_memory(self.np.H[q], R_):
+                    self.stale.add(q)
         self.epoch_views.clear()
         self.unguarded.clear()
 
@@ -1006,7 +1021,7 @@ PROFILES = {
     "c05": dict(p_forder_leaf=0.25, functional=["bin", "bin", "un", "red", "matmul", "gathercopy"], w_func=0.35, w_view=0.3, w_inplace=0.35,
                 max_leaves=2, max_steps=8, p_const_leaf=0.15, w_misc=0.08, misc=["fail"]),
     "c06": dict(p_forder_leaf=0.25, functional=["bin", "un", "red"], w_func=0.4, w_view=0.6, w_inplace=0.0, max_leaves=2, max_steps=7,
-                p_const_leaf=0.0, w_misc=0.08, misc=["copy"], max_epochs=2),
+                p_const_leaf=0.0, w_misc=0.08, misc=["copy"], max_epochs=3, p_keep_stale=0.5, p_reuse_stale=0.7),
     "c09": dict(functional=["bin", "bin", "un", "red", "matmul"], w_func=0.5, w_view=0.25, w_inplace=0.25, max_leaves=2,
                 max_steps=5, max_epochs=2, max_terminals=3, between_steps=3, p_const_leaf=0.15, w_misc=0.1,
                 misc=["clear", "nullgrad"], p_clear_instead=0.2, inplace=["setitem", "setitem", "aug", "uout", "setshape"]),
@@ -1026,6 +1041,6 @@ PROFILES = {
     "c15": dict(functional=["bin", "bin", "un", "red", "matmul", "gathercopy"], w_func=0.4, w_view=0.3, w_inplace=0.3,
                 max_leaves=2, max_steps=9, p_const_leaf=0.2, p_scope=0.3, max_epochs=2),
     "c07": dict(functional=["bin", "un", "red", "matmul", "gathercopy"], w_func=0.5, w_view=0.3, w_inplace=0.2, max_leaves=2,
-                max_steps=5, max_epochs=3, p_const_leaf=0.1, w_misc=0.1, misc=["nullgrad", "copy"], p_keep_stale=0.4,
+                max_steps=5, max_epochs=3, p_const_leaf=0.1, w_misc=0.1, misc=["nullgrad", "copy"], p_keep_stale=0.4, p_reuse_stale=0.5,
                 p_drop=0.35),
 }
